@@ -1,6 +1,8 @@
 SPECIFICATION TSpec
 CONSTANTS
   MaxOps = 1000000
+  UnitKinds = {"set32", "set64", "getp"}
+  MaxPos = 3
 CONSTRAINT Record
 POSTCONDITION Post
 CHECK_DEADLOCK FALSE
